@@ -552,7 +552,7 @@ class BuiltinModelLoaderGen(ModelLoaderGen):
                 self._gen_add_self_extra_to_parent_extra(state)
 
     def _gen_forbidden_sequence_check(self, state: GenState) -> None:
-        with state.builder(f"if type({state.v_data}) is str:"):
+        with state.builder(f"if isinstance({state.v_data}, str):"):
             self._gen_raise_bad_type_error(state, f"ExcludedTypeLoadError(CollectionsSequence, str, {state.v_data})")
 
     def _gen_list_crown(self, state: GenState, crown: InpListCrown):
